@@ -11,7 +11,7 @@ def run(tier, replay=None):
     schemas = []
     for bo in ("littleEndian", "bigEndian"):
         schemas += headers.header_schemas(bo)
-        schemas += headers.dim_schemas(bo, with_ref_num=False)
+        schemas += headers.dim_schemas(bo, with_ref_num=True)
     rep.set("bounds", {"message_headers": "all 24 permutations; numGroups/numVarDataFields subsets before/after; extra member at each position; gap before each member; each member and all members as <ref>; each member type over uint8/32/64; all-uint64 with counters",
                        "group_dimensions": "16 type pairs; numInGroup first; counters (after / before); extra member at each position; gaps; ref-typed blockLength",
                        "levels": "message with 0/1/2 groups and data, flat group, nested group and its inner group", "num_in_group_arguments": "0, 1, max-1, max of the numInGroup type (header-only), then the real count from {0,1,2}",
@@ -25,7 +25,7 @@ def run(tier, replay=None):
     rep.set("distinct_nontrivial", len({d.split(":")[1] + ":" + d.split(":")[2] for b in builts for d in b.descs if d.count(":") >= 2}))
     rep.set("rule", "one evaluation = one complete encode script (header fill first) on one layout/level/driver/cell, whole buffer compared after every op with the model's "
                     "image (header values, gaps and extra members untouched); distinct = distinct header/dimension layouts")
-    rep.assume("numInGroup given as <ref> aborts sbeppc (see known findings / C09) and is therefore not part of this alphabet")
+    rep.assume("numInGroup and blockLength given as <ref> are part of the alphabet since the sbeppc abort on them was repaired")
     if total.cases == 0 and not rep.violations:
         rep.harness_error("vacuous")
     return rep.finish()
